@@ -187,7 +187,7 @@ func Explore(prog *ssa.Program, fn *ssa.Function, e *Engine) (infra string) {
 					case runtime.Error:
 						e.pathPanic("target panic: runtime error: " + p.Error())
 					case deadlockErr:
-						e.pathPanic("deadlock: " + p.desc)
+						e.pathHang("deadlock: " + p.desc)
 					default:
 						fatal = p
 					}
@@ -284,6 +284,23 @@ func (e *Engine) pathPanic(msg string) {
 }
 
 var _ = time.Now
+
+// pathHang records a deadlock (every goroutine blocked, no timer left to fire).  The harness may
+// have attributed hangs to a known finding with gosym.OnHang(kfID, inRegion).
+func (e *Engine) pathHang(msg string) {
+	label := msg
+	if k := strings.Index(label, " [g"); k > 0 {
+		label = label[:k]
+	}
+	if k := strings.Index(label, "[g"); k > 0 {
+		label = strings.TrimSpace(label[:k])
+	}
+	label = strings.TrimSuffix(strings.TrimSpace(label), ":")
+	e.Asserts++
+	e.AssertLabels["no panic/deadlock escapes the harness"]++
+	q := append([]string{}, e.pc...)
+	e.violation(label, e.hangKF, e.hangKF != "" && e.hangRegion, msg, q)
+}
 
 func sortedKeysAPI(m map[string][]APIEvent) []string {
 	var ks []string
